@@ -215,11 +215,11 @@ def gen_instances(seed, si, tier):
                         ls = []
                         ok = True
                         for k in m:
-                            lf = t.leaf_for(k.ns, k.local)
-                            if lf is None:
+                            cands = t.candidates(k.ns, k.local)
+                            if not cands:
                                 ok = False
                                 break
-                            ls.append(lf[1])
+                            ls.append(frozenset(c[1] for c in cands))
                         if ok:
                             selfcheck[0] += 1
                             if xg.regex_match(t.regex, ls) != xg.naive_match(t.particle, ls):
